@@ -32,6 +32,9 @@ def pair_sum(prog, f, ev):
             break
         if isinstance(s, ast.Assign) and isinstance(s.targets[0], ast.Name):
             env[s.targets[0].id] = ev.eval(s.value, env, fr)
+        elif isinstance(s, ast.If) and not s.orelse and len(s.body) == 1 and isinstance(s.body[0], ast.Return) and s.body[0].value is not None \
+                and isinstance(s.body[0].value, ast.Constant) and isinstance(s.body[0].value.value, (int, float)):
+            continue                       # an early answer on a guard: judged by early_exits(), the fold below is what runs otherwise
         elif not (isinstance(s, ast.Expr) and isinstance(s.value, ast.Constant)):
             raise Undecided("statement before the pair loop", f.loc(s))
     u, v = outer.target.id, inner.target.id
@@ -131,6 +134,60 @@ def swap_ij(nf):
     return out
 
 
+def early_exits(ck, prog, f, construct):
+    """`if <guard on the charge counts>: return <constant>` in front of the pair fold.  Proof: the guard leaves fewer than two charged
+    residues (no pair contributes) and the constant is 0.  Refutation by lemma: with two or more charges all of one sign every pair term is
+    positive (SCD > 0); with exactly one positive and one negative charge the single term is negative (SCD < 0) - a guard that holds for a
+    representative composition of either family while returning 0 answers wrongly.  Anything else is undecided."""
+    from lcsa.dt import feasible_with
+    from lcsa.sym import fmt_conds
+    body = f.body()
+    outer = next((s_ for s_ in body if isinstance(s_, ast.For)), None)
+    n = 0
+    judged = []
+    for s_ in body:
+        if s_ is outer:
+            break
+        if not (isinstance(s_, ast.If) and not s_.orelse and len(s_.body) == 1 and isinstance(s_.body[0], ast.Return) and isinstance(s_.body[0].value, ast.Constant)):
+            continue
+        const = s_.body[0].value.value
+        judged.append(s_.body[0])
+        ev = Evaluator(prog)
+        c = ev.cond(s_.test, {"self": ObjV(f.cls)}, _Frame(f, 0))
+        atoms = set()
+        from props.C01 import _cond_atoms
+        atoms = _cond_atoms(c) if not isinstance(c, bool) else set()
+        ck.shape(atoms <= {"npos", "nneg", "nneut", "N"}, "sequence_charge_decoration: early return on something other than the charge counts (%s)" % unparse(s_.test)[:60], f.loc(s_))
+        comp = [Lin({"npos": -1}, 0, "<="), Lin({"nneg": -1}, 0, "<="), Lin({"nneut": -1}, 0, "<="),
+                Lin({"N": 1, "npos": -1, "nneg": -1, "nneut": -1}, 0, "<="), Lin({"N": -1, "npos": 1, "nneg": 1, "nneut": 1}, 0, "<=")]
+        ints = {"npos", "nneg", "nneut", "N"}
+        n += 1
+        # proof
+        two = feasible_with([c], comp + [Lin({"npos": -1, "nneg": -1}, 2, "<=")], set(), int_atoms=ints)
+        if two is None and const == 0:
+            ck.ob("FOLD-early-exit", construct, True, expected="fewer than two charged residues: no pair contributes, SCD = 0", found=unparse(s_.test), slot="early@%d" % (s_.lineno - f.node.lineno), where=f.loc(s_))
+            continue
+        # refutation
+        fams = {"two or more charges, all positive (every pair term is positive)": ([(2, 0, 0), (3, 0, 5), (10, 0, 1)], 1),
+                "two or more charges, all negative (every pair term is positive)": ([(0, 2, 0), (0, 3, 5), (0, 10, 1)], 1),
+                "exactly one positive and one negative charge (the only pair term is negative)": ([(1, 1, 0), (1, 1, 7)], -1)}
+        hit = None
+        for fam, (reps, sgn) in fams.items():
+            if (const > 0) - (const < 0) == sgn:
+                continue
+            for (a_, b_, c_) in reps:
+                fix = [Lin({"npos": 1}, -a_, "=="), Lin({"nneg": 1}, -b_, "=="), Lin({"nneut": 1}, -c_, "=="), Lin({"N": 1}, -(a_ + b_ + c_), "==")]
+                if feasible_with([c], fix, set(), int_atoms=ints) is not None:
+                    hit = (fam, (a_, b_, c_))
+                    break
+            if hit:
+                break
+        ck.shape(hit is not None, "sequence_charge_decoration: early return %r under %s - neither provably right nor refuted by the lemma" % (const, unparse(s_.test)[:50]), f.loc(s_))
+        ck.ob("FOLD-early-exit", construct, False, expected="SCD of the pair fold", found={"returns": const, "when": unparse(s_.test), "e.g. (n+, n-, n0)": list(hit[1]), "family": hit[0]},
+              slot="early@%d" % (s_.lineno - f.node.lineno), where=f.loc(s_), note="the guard covers sequences whose charge decoration is not %r" % const)
+    return judged
+
+
 def run(ck, prog):
     from props.common import check_memos
     ck.attempt(check_memos, ck, prog)
@@ -143,6 +200,7 @@ def run(ck, prog):
     ck.attempt(check_charge_map, ck, prog)
     f = prog.fn(SEQ, "Sequence.sequence_charge_decoration")
     construct = SEQ_PATH + ":Sequence.sequence_charge_decoration"
+    ck.attempt(early_exits, ck, prog, f, construct)
     code = pair_sum(prog, f, Evaluator(prog))
     rp = ref_program()
     ref = pair_sum(rp, rp.fn("ref.py", "Sequence.sequence_charge_decoration"), Evaluator(rp))
@@ -171,4 +229,6 @@ def run(ck, prog):
           note="(1/N) * sum")
     ck.ob("DEP", construct, code["reads"] == ["cp"], expected=["cp"], found=code["reads"], slot="reads",
           where=f.loc(), note="SCD reads the sequence only through its charge pattern")
-    ck.attempt(check_api, ck, prog, [("get_SCD", "sequence_charge_decoration", None)])
+    g = prog.fn("sequenceParameters.py", "SequenceParameters.get_SCD")
+    judged = ck.attempt(early_exits, ck, prog, g, g.mod.relpath + ":" + g.qual) or []
+    ck.attempt(check_api, ck, prog, [("get_SCD", "sequence_charge_decoration", None)], skip_returns={id(r) for r in judged})
